@@ -67,6 +67,9 @@ def single_faults(events: list[dict], rng: Rng, all_errnos: bool) -> list[dict]:
                 plans.append({"at": {k: {"kind": "deferred", "op": op, "errno": e}}})
         elif op == "mmap":
             plans.append({"at": {k: {"kind": "mmapfail", "op": "mmap", "errno": "ENOMEM"}}})
+        elif op.startswith("os."):
+            for e in errs(["EACCES", "ENOSPC", "ENOENT"]):
+                plans.append({"at": {k: {"kind": "callfail", "op": op, "errno": e}}})
         elif op in ("err.write", "err.flush"):
             plans.append({"at": {k: {"kind": "streamfail", "op": op, "errno": "EPIPE"}}})
     return plans
